@@ -169,7 +169,7 @@ fn degree_inputs(k: i64) -> Vec<f64> {
 pub fn run(tier: &str) -> i32 {
     let rep = Report::new("C09", tier, "exploration");
     let thorough = rep.thorough();
-    rep.rule("(i) decode->encode over stored coordinate values v (six fields hold v+j*0x9E3779B1): quick |v|<=2^17, stride 4099, boundaries; thorough all 2^32; each decoded field must be bit-identical to the f64 nearest to v*1e-7 and the re-encoded bytes identical; (ii) degrees->stored for fl(k/1e7), fl((k+-1/2)/1e7), fl((k+1/4)/1e7) +-2ulp, both signs, dyadic ties; (iii) one-hot and boundary values in each u64 field; (iv) every code 0..255 in enum/clustered/version bytes, magic perturbations; (v) every truncation 0..126 and trailing bytes; sync and async; non-trivial = distinct header images / distinct f64 inputs");
+    rep.rule("(i) decode->encode over stored coordinate values v (six fields hold v+j*0x9E3779B1): quick |v|<=2^17, stride 4099, boundaries; thorough all 2^32; each decoded field must be bit-identical to the f64 nearest to v*1e-7 and the re-encoded bytes identical; (ii) degrees->stored for fl(k/1e7), fl((k+-1/2)/1e7), fl((k+1/4)/1e7) +-2ulp, both signs, dyadic ties; (ii') every subset of the numeric fields (and, thorough, of the flag/enum bytes) set to zero; (iii) one-hot and boundary values in each u64 field; (iv) every code 0..255 in enum/clustered/version bytes, magic perturbations; (v) every truncation 0..126 and trailing bytes; sync and async; non-trivial = distinct header images / distinct f64 inputs");
     rep.assume("hand-written little-endian codec in harness/src/spec/header.rs is the trusted reference");
 
     // ---------------- (i) decode -> encode
@@ -279,6 +279,48 @@ pub fn run(tier: &str) -> i32 {
     rep.count("degree_failures", bad.len() as u64);
     for (b, (k, d)) in bad.into_iter().take(200) {
         rep.violation(k, d, json!({"kind":"degrees","bits":format!("{b:016x}")}));
+    }
+
+    // ---------------- (ii') zero patterns: every subset of the numeric fields set to 0 (a reader or writer that treats a
+    // *combination* of zero fields as "unset" and fills in something else is only visible on such a conjunction);
+    // non-zero values are pairwise different and not symmetric around 0. quick: all 2^20 subsets of the 11 u64 fields,
+    // 3 zooms and 6 coordinates with the flag/enum bytes non-zero, plus all 2^13 subsets of flag/enum bytes, zooms
+    // and coordinates; thorough: all 2^24 subsets
+    {
+        let zero_pattern = |mask: u32| -> SHeader {
+            let z = |bit: u32| mask >> bit & 1 == 1;
+            let u = |bit: u32, v: u64| if z(bit) { 0 } else { v };
+            let i = |bit: u32, v: i32| if z(bit) { 0 } else { v };
+            let b = |bit: u32, v: u8| if z(bit) { 0 } else { v };
+            SHeader {
+                root_offset: u(0, 127), root_length: u(1, 25), meta_offset: u(2, 152), meta_length: u(3, 10), leaf_offset: u(4, 162), leaf_length: u(5, 7),
+                data_offset: u(6, 169), data_length: u(7, 1000), n_addressed: u(8, 5), n_entries: u(9, 4), n_contents: u(10, 3),
+                min_zoom: b(11, 2), max_zoom: b(12, 9), center_zoom: b(13, 4),
+                min_lon: i(14, 111_540_260), min_lat: i(15, 437_270_125), max_lon: i(16, 113_289_395), max_lat: i(17, 438_325_455), center_lon: i(18, 112_000_001), center_lat: i(19, -437_700_003),
+                clustered: b(20, 1), internal_compression: b(21, 2), tile_compression: b(22, 1), tile_type: b(23, 2),
+            }
+        };
+        let masks: Vec<u32> = if thorough {
+            (0u32..1 << 24).collect()
+        } else {
+            (0u32..1 << 20).chain((0u32..1 << 13).map(|m| (m & 0x1ff) << 11 | (m >> 9) << 20)).collect()
+        };
+        let bad: Vec<(u32, (String, String))> = masks
+            .par_iter()
+            .filter_map(|m| {
+                let sh = zero_pattern(*m);
+                if let Some((k, d)) = decode_encode(&sh.encode(), m % 64 == 0) {
+                    return Some((*m, (format!("zero-pattern/{k}"), d)));
+                }
+                both_ways(&sh).into_iter().next().map(|(k, d)| (*m, (format!("zero-pattern/{k}"), d)))
+            })
+            .collect();
+        rep.eval(masks.len() as u64);
+        rep.nontrivial(masks.len() as u64);
+        rep.count("zero_pattern_headers", masks.len() as u64);
+        for (m, (k, d)) in bad.into_iter().take(50) {
+            rep.violation(k, format!("fields set to zero: mask {m:#x}: {d}"), json!({"kind":"bytes","hex":hex(&zero_pattern(m).encode())}));
+        }
     }
 
     // ---------------- (iii) u64 fields
